@@ -25,10 +25,9 @@ EXP_MAX = 0x1000000 * 10 - 1          # 10 * (0x1000000 - 1) + 9
 
 
 def helper(db, name):
-    c = [f for f in db.fns.values() if f['id'].startswith(P) and f['name'] == name and f['impl'] and 'AsciiDecLit' in f['impl']['self']]
-    if len(c) != 1:
-        raise SystemExit('fpsa: parser helper %s not found uniquely (fail closed)' % name)
-    return c[0]
+    """the scanner method with this role (found by name, else by its signature among the methods str_to_dec calls)"""
+    from .. import roles
+    return roles.fn(db, {'skip_leading_zeroes': 'SKIP_ZEROES', 'accum_coeff': 'ACCUM_COEFF', 'accum_exp': 'ACCUM_EXP'}[name])
 
 
 def setup_thresholds(db):
@@ -539,7 +538,9 @@ def swar_summaries():
             v = padd(v, pscale(padd(b.p, pconst(48), -1), 10 ** (7 - j)))
         st.ghost = dict(st.ghost, last_chunk=tuple(pfreeze(b.p) for b in k.lanes))
         return I.mk(st, 'u64', v, 0, 10 ** 8 - 1)
-    return {P + 'chunk_contains_8_digits': s_contains, P + 'chunk_to_u64': s_value}
+    from .. import roles as _roles
+    from ..harness import get_db as _gdb
+    return {_roles.resolve(_gdb(), 'SWAR_TEST'): s_contains, _roles.resolve(_gdb(), 'SWAR_VALUE'): s_value}
 
 
 def job_scan(db, name):
@@ -602,7 +603,8 @@ def job_swar(db, what, cell):
     from ..absint import Lanes
     bad = []
     if what == 'contains':
-        fn = db.fns.get(P + 'chunk_contains_8_digits')
+        from .. import roles as _roles
+        fn = _roles.fn(db, 'SWAR_TEST')
         if fn is None:
             return [('H-SWAR', 'contains;%s' % (cell,), False, 'chunk_contains_8_digits not found', None)]
         I = Interp(db, Opts(max_paths=200))
@@ -627,7 +629,8 @@ def job_swar(db, what, cell):
             bad.append('no outcome')
         key = 'contains;%s' % ('all-digits' if j0 is None else 'byte%d=%s' % (j0, cls))
         return [('H-SWAR', key, not bad, '; '.join(bad[:2]) or 'returns %s' % bool(want), span_str(fn.get('span')) if bad else None)]
-    fn = db.fns.get(P + 'chunk_to_u64')
+    from .. import roles as _roles
+    fn = _roles.fn(db, 'SWAR_VALUE')
     if fn is None:
         return [('H-SWAR', 'value', False, 'chunk_to_u64 not found', None)]
     I = Interp(db, Opts(max_paths=200))
